@@ -25,6 +25,7 @@ import (
 	"sync"
 	"testing"
 	"time"
+	"unicode/utf8"
 
 	"Havoc/pkg/agent"
 	"Havoc/pkg/events"
@@ -41,13 +42,42 @@ import (
 )
 
 type OpB struct {
-	K    string `json:"k"`    // download console
-	Mode string `json:"mode"` // ws direct
-	ID   string `json:"id"`
-	Name string `json:"name,omitempty"`
-	Data []byte `json:"data,omitempty"`
-	Msg  string `json:"msg,omitempty"`
+	K     string `json:"k"`    // download console shot
+	Mode  string `json:"mode"` // ws | direct (service.go's two calls, NULs stripped from the name by the caller as on HEAD) | direct-raw (the writer gets the name as it is)
+	ID    string `json:"id"`
+	IDB   []byte `json:"id_b,omitempty"` // the id when it is not valid UTF-8
+	Name  string `json:"name,omitempty"`
+	NameB []byte `json:"name_b,omitempty"` // the name when it is not valid UTF-8
+	Data  []byte `json:"data,omitempty"`
+	Msg   string `json:"msg,omitempty"`
 }
+
+func (o OpB) id() string {
+	if len(o.IDB) > 0 {
+		return string(o.IDB)
+	}
+	return o.ID
+}
+
+func (o OpB) name() string {
+	if len(o.NameB) > 0 {
+		return string(o.NameB)
+	}
+	return o.Name
+}
+
+func (o *OpB) set(id, name string) {
+	o.ID, o.IDB, o.Name, o.NameB = id, nil, name, nil
+	if !utf8.ValidString(id) {
+		o.ID, o.IDB = "", []byte(id)
+	}
+	if !utf8.ValidString(name) {
+		o.Name, o.NameB = "", []byte(name)
+	}
+}
+
+// wire: what a JSON text message can carry of a string (bytes that are not UTF-8 arrive as U+FFFD).
+func wire(s string) string { return string([]rune(s)) }
 
 type CaseB struct {
 	Real   []string `json:"real"`   // agents whose loot folders already exist (with a downloaded file and a console log)
@@ -235,7 +265,20 @@ func idClass(id string, reals []string) string {
 	return "fresh"
 }
 
+// genID: an id shape, in one case of three decorated with removable / normalisable characters
+// inside its components ("." NUL ".", "<id>" U+200B, "%2e%2e", trailing dot …).
 func genID(t *rapid.T, reals []string) string {
+	id := genIDShape(t, reals)
+	if rapid.IntRange(0, 2).Draw(t, "decorate-id") == 0 {
+		if id == "" || rapid.Bool().Draw(t, "dots") {
+			id = rapid.SampledFrom([]string{"..", ".", "../x", "../" + reals[0], reals[0] + "/..", "..."}).Draw(t, "dotid")
+		}
+		id = decorate(t, id)
+	}
+	return tame(id, 2)
+}
+
+func genIDShape(t *rapid.T, reals []string) string {
 	r0 := reals[0]
 	r1 := reals[len(reals)-1]
 	switch rapid.IntRange(0, 9).Draw(t, "idshape") {
@@ -269,24 +312,30 @@ func genB(t *rapid.T) CaseB {
 	n := rapid.IntRange(1, 8).Draw(t, "nops")
 	for i := 0; i < n; i++ {
 		var op OpB
-		op.ID = genID(t, c.Real)
-		op.Mode = rapid.SampledFrom([]string{"ws", "direct"}).Draw(t, "mode")
-		if rapid.IntRange(0, 3).Draw(t, "kind") == 0 {
+		id := genID(t, c.Real)
+		name := ""
+		op.Mode = rapid.SampledFrom([]string{"ws", "ws", "direct", "direct-raw"}).Draw(t, "mode")
+		switch k := rapid.IntRange(0, 7).Draw(t, "kind"); {
+		case k < 2:
 			op.K = "console"
 			op.Msg = rapid.StringMatching(`[a-z]{1,8}`).Draw(t, "msg")
-		} else {
+		default:
 			op.K = "download"
+			if k == 7 {
+				op.K = "shot" // logr.DemonSaveScreenshot called with a generated name (its only caller builds the name itself)
+			}
 			other := c.Real[len(c.Real)-1]
-			if other == op.ID {
+			if other == id {
 				other = c.Real[0]
 			}
-			own := op.ID
-			if !validID(own) {
+			own := id
+			if !validID(own) || !utf8.ValidString(own) {
 				own = c.Real[0]
 			}
-			op.Name = capUpsN(genName(t, own, other), 4)
+			name = tame(capUpsN(genName(t, own, other), 4), 4)
 			op.Data = rapid.SliceOfN(rapid.Byte(), 0, 24).Draw(t, "data")
 		}
+		op.set(id, name)
 		c.Ops = append(c.Ops, op)
 	}
 	return c
@@ -313,23 +362,31 @@ func checkB(c CaseB) *core.Violation {
 	w.snap = takeSnapshot(w.base)
 
 	for i, op := range c.Ops {
-		id := op.ID
-		if countUps(id) > 2 || countUps(op.Name) > 4 {
+		id, rawName := op.id(), op.name()
+		if countUps(id) > 2 || countUps(rawName) > 4 || hostileUps(id) > 2 || hostileUps(rawName) > 4 {
 			continue // could leave the observed tree
+		}
+		mode := op.Mode
+		if mode == "ws" && fatalRisk(w.agents, wire(id)) {
+			mode = "direct" // the message would also reach DemonAddOutput -> log.Fatal
+		}
+		if mode == "ws" {
+			id, rawName = wire(id), wire(rawName)
 		}
 		valid := validID(id)
 		risk := fatalRisk(w.agents, id)
-		mode := op.Mode
-		if risk && mode == "ws" {
-			mode = "direct" // the message would also reach DemonAddOutput -> log.Fatal
-		}
 		cls := idClass(id, c.Real)
 		desc := fmt.Sprintf("%s via %s id %q (%s)", op.K, mode, id, cls)
 
 		switch op.K {
 		case "download":
-			name := strings.Replace(op.Name, "\x00", "", -1) // service.go strips NULs from FileName
-			desc += fmt.Sprintf(" name %q", name)
+			name := rawName
+			if mode != "direct-raw" {
+				name = strings.Replace(rawName, "\x00", "", -1) // service.go (HEAD) strips NULs from FileName before the call
+			}
+			desc += fmt.Sprintf(" name %q", rawName)
+			// a decorated name may be stored under any spelling - inside the Download folder
+			loose := decorated(rawName)
 			p := permit{writer: "DemonAddDownloadedFile", region: w.agents}
 			var target string
 			contained, must := false, false
@@ -344,7 +401,12 @@ func checkB(c CaseB) *core.Violation {
 				if contained {
 					p.allowFile(target, mustEqual(op.Data))
 					st, err := os.Lstat(target)
-					must = strictID(id) && plainComponents([]string{name}) && !strings.ContainsAny(name, "/\\") && (err != nil || !st.IsDir())
+					must = !loose && strictID(id) && plainComponents([]string{name}) && !strings.ContainsAny(name, "/\\") && (err != nil || !st.IsDir())
+				}
+				if loose {
+					data := op.Data
+					p.looseUnder, p.looseOK = dl, func(cur []byte) string { return mustEqual(data)(nil, false, cur) }
+					p.dirsUnder = []string{dl}
 				}
 				// where inside the Download folder a name with "\" is stored is not part of the
 				// property (DownloadAdd treats "\" as a separator, this writer does not): the
@@ -364,7 +426,7 @@ func checkB(c CaseB) *core.Violation {
 				}
 			}
 			if mode == "ws" {
-				svcSend(id, map[string]any{"MiscType": "download", "FileName": op.Name, "Content": base64.StdEncoding.EncodeToString(op.Data)})
+				svcSend(id, map[string]any{"MiscType": "download", "FileName": rawName, "Content": base64.StdEncoding.EncodeToString(op.Data)})
 			} else {
 				logr.LogrInstance.DemonAddDownloadedFile(id, name, op.Data)
 			}
@@ -375,6 +437,32 @@ func checkB(c CaseB) *core.Violation {
 				if got, ok := w.snap.files[target]; !ok || string(got) != string(op.Data) {
 					return core.V("DemonAddDownloadedFile|content", "step %d (%s): %s holds %s (exists=%v), sent %s", i, desc, w.rel(target), short(got), ok, short(op.Data))
 				}
+			}
+
+		case "shot":
+			// logr.DemonSaveScreenshot with a generated name and id (direct call only: COMMAND_SCREENSHOT builds the name itself)
+			desc = fmt.Sprintf("screenshot id %q (%s) name %q", id, cls, rawName)
+			p := permit{writer: "DemonSaveScreenshot", region: w.agents}
+			if valid {
+				sd := w.shotDir(id)
+				target := filepath.Clean(sd + "/" + rawName)
+				p.region, p.targetIn = sd, inside(sd, target)
+				p.noWriteSig = "wrote-unexpected-file-in-screenshot-dir"
+				p.dirsExact = []string{w.agentDir(id), sd}
+				anyPNG := func([]byte, bool, []byte) string { return "" }
+				if p.targetIn {
+					p.allowFile(target, anyPNG)
+				}
+				if decorated(rawName) {
+					p.looseUnder, p.looseOK = sd, func([]byte) string { return "" }
+					p.dirsUnder = []string{sd}
+				}
+			} else {
+				p.craftedID = cls
+			}
+			logr.LogrInstance.DemonSaveScreenshot(id, rawName, tinyBMP)
+			if v := w.judge(i, desc, p); v != nil {
+				return v
 			}
 
 		case "console":
@@ -415,21 +503,28 @@ func classifyB(c CaseB) core.Class {
 	firstCrafted, firstName := "", ""
 	modes := map[string]bool{}
 	for _, op := range c.Ops {
-		cls := idClass(op.ID, c.Real)
+		opID, opName := op.id(), op.name()
+		cls := idClass(opID, c.Real)
 		cl.Labels = append(cl.Labels, "id:"+cls, "op:"+op.K, "mode:"+op.Mode)
-		if strings.Contains(op.ID, "\x00") || len(op.ID) > 200 || (strings.Contains(op.ID, "/") && !strings.HasPrefix(filepath.Clean(op.ID), "../") && !strings.HasPrefix(filepath.Clean(op.ID), "/")) {
+		for _, d := range decoClasses(opID) {
+			cl.Labels = append(cl.Labels, "iddeco:"+d)
+			if d == "disguised-dotdot" && cls != "real" && firstCrafted == "" {
+				firstCrafted = "disguised-dotdot"
+			}
+		}
+		if strings.Contains(opID, "\x00") || len(opID) > 200 || (strings.Contains(opID, "/") && !strings.HasPrefix(filepath.Clean(opID), "../") && !strings.HasPrefix(filepath.Clean(opID), "/")) {
 			cl.Labels = append(cl.Labels, "id-may-be-kept-from-DemonAddOutput")
 		}
 		modes[op.Mode] = true
 		if cls != "real" && cls != "fresh" && firstCrafted == "" {
 			firstCrafted = cls
 		}
-		if op.K == "download" {
-			nc := classifyName(strings.Replace(op.Name, "\x00", "", -1))
+		if op.K == "download" || op.K == "shot" {
+			nc := classifyName(opName)
 			cl.Labels = append(cl.Labels, nc.labels("name:")...)
-			if validID(op.ID) {
+			if validID(opID) {
 				dl := "/L/agents/ID/Download"
-				tgt := filepath.Clean(dl + "/" + strings.Replace(op.Name, "\x00", "", -1))
+				tgt := filepath.Clean(dl + "/" + strings.Replace(opName, "\x00", "", -1))
 				switch {
 				case inside(dl, tgt):
 					cl.Labels = append(cl.Labels, "download:target-inside")
@@ -440,19 +535,19 @@ func classifyB(c CaseB) core.Class {
 				}
 			}
 			if nc.interesting() && firstName == "" {
-				firstName = fmt.Sprintf("dd=%v,mix=%v,sib=%v", nc.dotdot, nc.mixed || nc.doubled, nc.prefixSib)
+				firstName = fmt.Sprintf("dd=%v,mix=%v,sib=%v,dis=%v", nc.dotdot, nc.mixed || nc.doubled, nc.prefixSib, nc.disguised())
 			}
 		}
 	}
 	cl.NonTrivial = firstCrafted != "" || firstName != ""
-	cl.Fingerprint = fmt.Sprintf("id=%s|name=%s|modes=%d|real=%d", firstCrafted, firstName, len(modes), len(c.Real))
+	cl.Fingerprint = fmt.Sprintf("id=%s|name=%s|real=%d", firstCrafted, firstName, len(c.Real))
 	return cl
 }
 
 func TestC07b(t *testing.T) {
 	core.Run(t, core.Spec[CaseB]{
 		Property: "C07", Sub: "b",
-		Rule: "1-2 existing agent folders (with a downloaded file and a console log; optionally Download_x/, Downloads/ siblings), 1-8 AgentOutput messages of a third-party agent service, each a download (AgentID, FileName from the path grammar, content) or a console output, delivered over a websocket to the real service endpoint or by making service.go's two logr calls directly; agent ids: existing, fresh, '', '.', '..', '../x', '<existing>/b', '<existing>/Download', 'x/../<existing>', '/<id>', '<id>/', with NUL, 300 chars, random joins. Oracle after every message: recursive listing of a root four levels above the loot root; an id that is not a single path component creates nothing; otherwise the only file written is the cleaned target strictly inside agents/<id>/Download with exactly the bytes sent (plus agents/<id>/Console_<id>.log, append-only, containing the message), the only directories created are agents/<id> and its Download folder; plain names must be stored. Non-trivial: a crafted id, or a name with .., separator mix or prefix-sharing sibling; distinct = (class of first crafted id, flags of first interesting name, #modes, #folders)",
+		Rule: "1-2 existing agent folders (with a downloaded file and a console log; optionally Download_x/, Downloads/ siblings), 1-8 AgentOutput messages of a third-party agent service, each a download (AgentID, FileName from the path grammar, content) or a console output, delivered over a websocket to the real service endpoint or by making service.go's two logr calls directly; agent ids: existing, fresh, '', '.', '..', '../x', '<existing>/b', '<existing>/Download', 'x/../<existing>', '/<id>', '<id>/', with NUL, 300 chars, random joins. Ids (one in three) and names (one in two) are DECORATED with removable / normalisable characters inside components (NUL, NUL runs, U+200B, U+FEFF, soft hyphen, tab, space, trailing dot / space, %2e %2f %5c, overlong and invalid UTF-8). Modes: ws (real endpoint), direct (service.go's calls, name NUL-stripped by the caller as on HEAD), direct-raw (writer called with the name as it is); a third operation calls logr.DemonSaveScreenshot with a generated id and name. For a decorated name any ONE new file inside the agent's own Download (Screenshots) folder with the bytes sent is accepted. Oracle after every message: recursive listing of a root four levels above the loot root; an id that is not a single path component creates nothing; otherwise the only file written is the cleaned target strictly inside agents/<id>/Download with exactly the bytes sent (plus agents/<id>/Console_<id>.log, append-only, containing the message), the only directories created are agents/<id> and its Download folder; plain names must be stored. Non-trivial: a crafted id (incl. a decorated id a normalisation would turn into '..'), or a name with .., separator mix, prefix-sharing sibling or disguised '..'; distinct = (class of first crafted id, flags of first interesting name incl. disguised dot-dot, #folders)",
 		Gen:  genB, Check: checkB, Classify: classifyB,
 		Assumptions: []string{
 			"ids on which DemonAddOutput could end in log.Fatal (NUL, >200 chars, or containing '/' while the directory of agents/Clean(id)/Console_<id>.log does not exist) are not passed to DemonAddOutput: process exit is outside this property and would hide everything else",
